@@ -405,9 +405,9 @@ class Ref:
             r = self.refs[s]
             if r is None:
                 return False
-            if self.base[s] is not None and self.refs[self.base[s]] == r:
-                # a reform that still refers to its baseline's object gets a copy of its own first (repair C14f):
-                # the baseline, and whoever else refers to the old object, keep it
+            if self.base[s] is not None:
+                # a reform always gets a copy of its own first (repairs C14f/C14g): whoever referred to the same
+                # object keeps the old one; only a root system's object is changed in place
                 self.objs.append(self.objs[r])
                 r = self.refs[s] = len(self.objs) - 1
             kids, ok = list(self.objs[r][1]), True
@@ -1682,7 +1682,7 @@ def corpus():
                          f"md:1:u,taxes.rate,{d18},-,3/4;ra:2:0:{d18}:taxes;ra:1:0:{d18}:taxes;rb:1:1:{d18}:benefits;"
                          f"ra:2:1:{d18}:benefits.added.benefits.basic_income 2 {bi} {bi2}", payload={"style": 30}, tags=("corpus", "chain")))
     # load_extension on the baseline changes the tree object in place: the un-modified reform 1 follows, reform 2 (own
-    # tree) does not; loaded on the un-modified reform 1 it goes to a copy (the baseline keeps its tree); a load that meets
+    # tree) does not; loaded on a reform it always goes to a copy (nobody else changes); a load that meets
     # a name already present stops there and leaves the views on the tree
     ext = f"N 2 e_x P {d15}:5 e_sub N 1 a P {d15}:6"
     ext2 = f"N 3 e_y P {d15}:8 taxes P {d15}:9 e_z P {d15}:10"
@@ -1695,7 +1695,7 @@ def corpus():
     out.append(Case(line=f"pview h 0 nr:0:0;{';'.join(many)};md:1:u,benefits.basic_income,{d15 + 100},-,777;{';'.join(again)};ld:0:1;{';'.join(again)} 2 {bi} {bi2}",
                     payload={"style": 32}, tags=("corpus", "memo-eviction")))
     # the chain base -> r1 -> r2, all three on one object: an extension loaded on r1 goes to r1's copy (base and r2 keep the
-    # old object); one then loaded on r2 — whose baseline r1 no longer refers to that object — is merged in place into it
+    # old object); one then loaded on r2 goes to r2's own copy too: the root baseline never changes
     out.append(Case(line=f"pview h 0 nr:0:0;nr:1:0;ra:0:0:{d18}:-;ra:1:0:{d18}:-;ra:2:0:{d18}:-;ex:1:1;ra:0:0:{d18}:-;ra:1:0:{d18}:-;"
                          f"ra:2:0:{d18}:-;rb:2:0:{d18}:-;ex:2:2;ra:0:0:{d18}:-;ra:1:0:{d18}:-;ra:2:0:{d18}:-;ex:1:2;ra:1:0:{d18}:-;ra:2:0:{d18}:- "
                          f"3 {bi} {ext} {ext2}", payload={"style": 33}, tags=("corpus", "extension", "chain")))
@@ -1777,7 +1777,7 @@ PROP = Prop(
         "the theorems hold for any capacity",
         "tree objects have an identity in the model: a reform refers to its baseline's object until one of them replaces its tree "
         "(Reform.modify_parameters installs a deep copy, load_parameters a new tree); load_extension merges IN PLACE into that object, "
-        "after giving a reform that still shares its baseline's object a copy of its own (repair C14f) "
+        "after giving a reform (any system with a baseline) a copy of its own (repairs C14f/C14g): only a root system's object is changed in place "
         "(real importable packages are built in a temporary directory; os.listdir is pinned to the declared order for the extension's "
         "parameters directory, because the merge stops at the first name already present); assigning `system.parameters = …` on a system "
         "whose view was already read, and in-place edits of a live tree by other means, are not documented routes and are not generated",
